@@ -1,4 +1,4 @@
-import BoxoModel.C21.Lemmas5
+import BoxoModel.C21.Lemmas6
 /-!
 # C21 — MFS republisher publishes the latest root and never regresses
 
@@ -100,6 +100,29 @@ theorem c21_close_flushes {last : Option Nat} {s : St} (h : Steps.Reach step (in
     s.stopped = true ∧ (w.pc = .released ∨ w.pc = .abandoned) := by
   have hW := (AllInv.reachable h).wt.waits j w hw
   exact ⟨(hW.ret hr).1, (hW.canc (hW.ret hr).2).1⟩
+
+/-- **Progress (the loop is never wedged)**: from every reachable state in which the loop has not been
+stopped, at most four events of the run loop itself — return of the publish function with success,
+receive from the update channel, a timer (one is armed whenever a value is pending: `c21_no_lost_wakeup`),
+return of the publish function — lead to a state where the channel is empty, nothing is pending and
+every value handed over so far is published, or superseded by a published / already-published value,
+or still held by an `Update` between its two halves.  Together with fairness of the timers and a publish
+function that eventually succeeds this is "eventually publishes the most recent value", with the
+bound k = 4 loop events (2 when the channel is empty and no publish is running). -/
+theorem c21_progress {last : Option Nat} {s : St} (h : Steps.Reach step (init last) s) (hst : s.stopped = false) :
+    ∃ evs s', evs.length ≤ 4 ∧ (∀ e ∈ evs, isLoopEv e = true) ∧ Steps.run step s evs = some s' ∧
+      s'.slot = none ∧ s'.toPub = none ∧ s'.inPub = false ∧
+      ∀ x, x ≤ s'.clock → x ≤ s'.pubStamp ∨ x ≤ s'.skipStamp ∨ x ≤ maxDrained s'.upds := by
+  obtain ⟨evs, s', h1, h2, h3, h4⟩ := prog_quiet (AllInv.reachable h).sc hst
+  refine ⟨evs, s', h1, h2, h3, h4.1, h4.2.1, h4.2.2.1, ?_⟩
+  intro x hx
+  have hr : Steps.Reach step (init last) s' := Steps.reach_of_run evs h h3
+  rcases (AllInv.reachable hr).wt.loss h4.1 x hx with hc | hc
+  · rcases hc with h5 | h5 | ⟨v, hv, _⟩
+    · exact Or.inl h5
+    · exact Or.inr (Or.inl h5)
+    · rw [h4.2.1] at hv; cases hv
+  · exact Or.inr (Or.inr hc)
 
 /-! ### the guard of `c21_waitpub_partial` is necessary (known finding)
 
